@@ -1,6 +1,7 @@
 /- Lemmas for the SDP printer / parser model: character-level attribute round trip, `norm`, and the
 line-level `parse (print d) = norm d`. -/
 import RtcModel.SdpLines
+import RtcModel.Lemmas.C08Text
 namespace RtcModel.SdpLines
 open RtcModel.Text
 
@@ -311,5 +312,173 @@ theorem parse_print (d : Desc) (h : WF d) : parse (print d) = .ok (norm d) := by
   simp only [hp]
   rw [finish_ok, he]
   simp [optList, norm]
+
+/-! ### character level: `o=`, `t=`, `m=` read back as written -/
+
+theorem parseU64_natStr (n : Nat) (h : n < 18446744073709551616) : parseU64 (natStr n) = some n :=
+  parseUnsigned_natStr _ n h
+
+theorem kind_tok (k : Kind) : IsTok k.str := by cases k <;> decide
+theorem kind_parse_str (k : Kind) : Kind.parse k.str = some k := by cases k <;> decide
+
+/-- **origin_roundtrip** (character level) — `Origin::parse` reads back what the printer writes for every
+origin whose user name and address are non-empty and free of white space and whose ids fit `u64`. -/
+theorem origin_roundtrip (o : Origin) (hu : IsTok o.username) (ha : IsTok o.address)
+    (h1 : o.sessionId < 18446744073709551616) (h2 : o.sessionVersion < 18446744073709551616) :
+    Origin.parse o.text = some o := by
+  obtain ⟨u, sid, sv, v6, addr⟩ := o
+  simp only at hu ha h1 h2
+  have htext : Origin.text ⟨u, sid, sv, v6, addr⟩ =
+      join [' '] [u, natStr sid, natStr sv, "IN".toList, (if v6 then "IP6".toList else "IP4".toList), addr] := by
+    simp [Origin.text, join, sp, List.append_assoc]
+  have htok : ∀ t ∈ [u, natStr sid, natStr sv, "IN".toList, (if v6 then "IP6".toList else "IP4".toList), addr], IsTok t := by
+    intro t ht
+    simp only [List.mem_cons, List.mem_nil_iff, or_false] at ht
+    rcases ht with h | h | h | h | h | h <;> subst h
+    · exact hu
+    · exact natStr_tok _
+    · exact natStr_tok _
+    · decide
+    · cases v6 <;> decide
+    · exact ha
+  unfold Origin.parse
+  rw [htext, splitWs_join _ htok]
+  simp only [parseU64_natStr sid h1, parseU64_natStr sv h2]
+  have e1 : upperAscii 'I' = 'I' := by decide
+  have e2 : upperAscii 'P' = 'P' := by decide
+  have e3 : upperAscii '4' = '4' := by decide
+  have e4 : upperAscii '6' = '6' := by decide
+  cases v6 <;> simp [e1, e2, e3, e4]
+
+/-- **timing_roundtrip** (character level) -/
+theorem timing_roundtrip (a b : Nat) (ha : a < 18446744073709551616) (hb : b < 18446744073709551616) :
+    parseTiming (timingText a b) = some (a, b) := by
+  have htext : timingText a b = join [' '] [natStr a, natStr b] := by simp [timingText, join, sp]
+  unfold parseTiming
+  rw [htext, splitWs_join _ (by intro t ht; simp at ht; rcases ht with h | h <;> subst h <;> exact natStr_tok _)]
+  simp [parseU64_natStr a ha, parseU64_natStr b hb]
+
+/-- **mline_roundtrip** (character level) — `MediaSection::from_m_line` reads back the printed m-line of
+every section with a `u16` port, a token protocol and a non-empty list of token formats. -/
+theorem mline_roundtrip (m : Media) (hp : m.port < 65536) (hproto : IsTok m.proto) (hne : m.formats ≠ [])
+    (hf : ∀ f ∈ m.formats, IsTok f) :
+    parseMLine (mLineText m) = some { m with mid := [], dir := .sendrecv, attrs := [], connection := none } := by
+  obtain ⟨kind, mid, port, proto, formats, dir, attrs, connection⟩ := m
+  simp only at hp hproto hne hf
+  cases formats with
+  | nil => exact absurd rfl hne
+  | cons f fs =>
+    have htext : mLineText ⟨kind, mid, port, proto, f :: fs, dir, attrs, connection⟩ =
+        join [' '] (kind.str :: natStr port :: proto :: f :: fs) := by
+      simp [mLineText, join, sp, List.append_assoc]
+    have htok : ∀ t ∈ kind.str :: natStr port :: proto :: f :: fs, IsTok t := by
+      intro t ht
+      simp only [List.mem_cons] at ht
+      rcases ht with h | h | h | h | h
+      · subst h; exact kind_tok _
+      · subst h; exact natStr_tok _
+      · subst h; exact hproto
+      · subst h; exact hf _ (by simp)
+      · exact hf _ (by simp [h])
+    unfold parseMLine
+    rw [htext, splitWs_join _ htok]
+    simp [kind_parse_str, parseU16, parseUnsigned_natStr 65536 port hp]
+
+/-! ### structural well-formedness ⇒ `WF` -/
+
+def WFMedia' (m : Media) : Prop :=
+  m.port < 65536 ∧ IsTok m.proto ∧ m.formats ≠ [] ∧ (∀ f ∈ m.formats, IsTok f) ∧
+  (∀ a ∈ m.attrs, plainKey a.key = true)
+
+def WFSession' (s : Session) : Prop :=
+  s.version < 256 ∧ IsTok s.origin.username ∧ IsTok s.origin.address ∧
+  s.origin.sessionId < 18446744073709551616 ∧ s.origin.sessionVersion < 18446744073709551616 ∧
+  s.start < 18446744073709551616 ∧ s.stop < 18446744073709551616 ∧
+  (∀ a ∈ s.attrs, (a.key.contains ':') = false)
+
+/-- Structural well-formedness: numeric fields in range (`u8` version, `u16` ports, `u64` ids and
+times), user name / address / protocol / formats are non-empty and free of white space, at least one
+format per section, attribute keys as in `WF`. -/
+def WF' (d : Desc) : Prop := WFSession' d.session ∧ ∀ m ∈ d.media, WFMedia' m
+
+instance (d : Desc) : Decidable (WF' d) := by unfold WF' WFSession' WFMedia'; infer_instance
+
+theorem wf_of_structural (d : Desc) (h : WF' d) : WF d := by
+  obtain ⟨⟨hv, hu, ha, h1, h2, h3, h4, hk⟩, hm⟩ := h
+  refine ⟨⟨?_, origin_roundtrip _ hu ha h1 h2, timing_roundtrip _ _ h3 h4, hk⟩, ?_⟩
+  · exact parseUnsigned_natStr 256 _ hv
+  · intro m hmm
+    obtain ⟨hp, hproto, hne, hf, hattrs⟩ := hm m hmm
+    exact ⟨mline_roundtrip m hp hproto hne hf, hattrs⟩
+
+/-! ### text framing (`\r\n`, `lines()`, `trim()`, `split_once('=')`) -/
+
+theorem splitOnAux_piece (sep : Char) (t rest cur : Str) (acc : List Str) (h : sep ∉ t) :
+    splitOnAux sep (t ++ rest) cur acc = splitOnAux sep rest (t.reverse ++ cur) acc := by
+  induction t generalizing cur with
+  | nil => rfl
+  | cons c cs ih =>
+    have hc : c ≠ sep := fun e => h (by simp [e])
+    have hcs : sep ∉ cs := fun e => h (by simp [e])
+    simp only [List.cons_append, splitOnAux, hc, if_false]
+    rw [ih _ hcs]
+    simp
+
+def lineBody (l : Line) : Str := l.pre ++ '=' :: l.value
+
+/-- a printed line survives the text framing: no line break inside, no `=` in the prefix, no white
+space at either end -/
+def LineOK (l : Line) : Prop :=
+  '\n' ∉ l.pre ∧ '\n' ∉ l.value ∧ '=' ∉ l.pre ∧ trim (lineBody l) = lineBody l
+
+instance (l : Line) : Decidable (LineOK l) := by unfold LineOK; infer_instance
+
+theorem splitOnAux_printText (ls : List Line) (acc : List Str) (h : ∀ l ∈ ls, LineOK l) :
+    splitOnAux '\n' (printText ls) [] acc = acc.reverse ++ ls.map (fun l => lineBody l ++ ['\r']) ++ [[]] := by
+  induction ls generalizing acc with
+  | nil => simp [printText, splitOnAux]
+  | cons l rest ih =>
+    obtain ⟨h1, h2, _, _⟩ := h l (by simp)
+    have hnl : '\n' ∉ (lineBody l ++ ['\r']) := by
+      simp only [lineBody, List.mem_append, List.mem_cons, not_or, List.mem_nil_iff, or_false]
+      refine ⟨⟨h1, by decide, h2⟩, by decide⟩
+    have e : printText (l :: rest) = (lineBody l ++ ['\r']) ++ ('\n' :: printText rest) := by
+      simp [printText, lineBody, List.append_assoc]
+    rw [e, splitOnAux_piece '\n' _ _ [] acc hnl]
+    simp only [List.append_nil, splitOnAux, if_true, List.reverse_reverse]
+    rw [ih _ (fun x hx => h x (by simp [hx]))]
+    simp
+
+theorem textLines_printText (ls : List Line) (h : ∀ l ∈ ls, LineOK l) :
+    textLines (printText ls) = ls.map lineBody := by
+  unfold textLines splitOn
+  rw [splitOnAux_printText ls [] h]
+  simp only [List.reverse_nil, List.nil_append, List.reverse_append, List.reverse_cons]
+  simp only [List.singleton_append, List.reverse_reverse, List.map_map]
+  apply List.map_congr_left
+  intro l _
+  simp [Function.comp]
+
+theorem linesOfText_printText (ls : List Line) (h : ∀ l ∈ ls, LineOK l) :
+    linesOfText (printText ls) = some ls := by
+  unfold linesOfText
+  rw [textLines_printText ls h]
+  induction ls with
+  | nil => rfl
+  | cons l rest ih =>
+    obtain ⟨_, _, h3, h4⟩ := h l (by simp)
+    have hne : (lineBody l).isEmpty = false := by simp [lineBody]
+    simp only [List.map_cons, h4, List.filter_cons, hne, Bool.not_false, if_true, List.mapM_cons]
+    have hs : splitOnce '=' (lineBody l) = some (l.pre, l.value) := splitOnce_append_of_not_mem '=' _ _ h3
+    rw [hs]
+    have ih' := ih (fun x hx => h x (by simp [hx]))
+    simp only [List.map_map] at ih' ⊢
+    simp [ih']
+
+theorem parseText_printText (ls : List Line) (h : ∀ l ∈ ls, LineOK l) :
+    parseText (printText ls) = parse ls := by
+  unfold parseText
+  rw [linesOfText_printText ls h]
+
 
 end RtcModel.SdpLines
